@@ -866,6 +866,8 @@ fn main() {
         n.map_kind = d.opts.iter().find_map(|o| o.strip_prefix("map=").map(|v| v.to_string()));
         n.want_after_tail = !d.after_tail.trim().is_empty();
         n.vunwrap = d.opts.iter().any(|o| o == "vunwrap");
+        n.extend_owned = d.opts.iter().any(|o| o == "extend-owned");
+        n.elems_field = d.opts.iter().find_map(|o| o.strip_prefix("elems:").map(|v| v.to_string()));
         for o in &d.opts {
             if let Some(v) = o.strip_prefix("via:") { if let Some((a, b)) = v.split_once(':') { n.via.push((a.to_string(), b.to_string())); } }
             if let Some(v) = o.strip_prefix("drain:") { n.drain.push(v.to_string()); }
